@@ -198,10 +198,16 @@ class PeerOpensMonitor(Monitor):
         self.checked = {}
         self.seen = set()
         self.key_updates = False
+        self.last_index = {}
+        self.restart_index = 0
+        self.exempt_sent_before_restart = 0
 
     def on_app(self, ep, op, t, outcome):
         if op.get("op") == "key_update":
             self.key_updates = True
+
+    def on_datagram_out(self, ep, rec, t):
+        self.last_index[ep.name] = rec.index
 
     def on_deliver(self, ep, rec, from_addr, t, altered=False):
         AckMonitor._install_open_watch()
@@ -213,8 +219,15 @@ class PeerOpensMonitor(Monitor):
         from aioquic import tls
 
         opened = AckMonitor._opened_by(ep)
+        if ep.name == "client" and (rec.sender == "frontend" or any(v.ptype in ("retry", "vn") for v in rec.views or [])):
+            # a client that starts over after a Retry / Version Negotiation packet makes a new ClientHello: what it sent
+            # before was protected with the early secret of the abandoned one, which no server connection ever holds
+            self.restart_index = self.last_index.get("client", -1) + 1
         for v in rec.views or []:
             if v.error or v.pn is None or v.ptype not in ("0rtt", "1rtt"):
+                continue
+            if v.ptype == "0rtt" and rec.index < self.restart_index:
+                self.exempt_sent_before_restart += 1
                 continue
             key = (ep.name, v.ptype, v.pn)
             if key in self.seen:
